@@ -268,6 +268,13 @@ extern "C" int harness_main()
 			// not silently discarded: either invoked, or still held by the object
 			if (r.invoked == 0) vp_assert(!r.destroyed, 15);
 		}
+		// a connect that arrived after its accept was cancelled is still queued for the next accept
+		if (!threw && g_kind >= K_ACCEPT0 && g_kind <= K_ACCEPT2 && g_intervention == I_CANCEL && feed && g_acc && g_r[0].invoked_before_intervention == 0 && g_r[0].ec == E_ABORTED)
+		{
+			start_op(2);
+			s.run();
+			vp_assert((g_r[2].invoked == 1) & (g_r[2].ec == 0), 16);
+		}
 		// ---- tear everything down: whatever is still outstanding is aborted exactly once; ... and the simulation
 		// is safe to destroy (also after a throw)
 		g_in_call = true;
@@ -276,7 +283,7 @@ extern "C" int harness_main()
 		g_in_call = false;
 		g_res = nullptr; g_timer = nullptr; g_usock = nullptr; g_cli = nullptr; g_srv = nullptr; g_acc = nullptr;
 		if (!threw) s.run();
-		for (int i = 0; i < 2 && !threw; ++i)
+		for (int i = 0; i < 3 && !threw; ++i)
 		{
 			rec const& r = g_r[i];
 			if (!r.started) continue;
